@@ -181,13 +181,14 @@ CLAIMS = {
   design="§6 C17"),
 
  "C18": dict(
-  technique="TLA+ ownership machine (VekIter) model-checked by TLC for every dimension; every transition of TLC's state graph replayed on IntoIter<Tracked>; the two-iterator machine (VekIterPair) explored by TLC and every state pair replayed as a comparison of two real iterators; conversion traces validated by TLC against the VekOwn ledger",
+  technique="TLA+ ownership machine (VekIter) model-checked by TLC for every dimension; every transition of TLC's state graph replayed on IntoIter<Tracked>; the two-iterator machine (VekIterPair) explored by TLC and every state pair replayed as a comparison of two real iterators; conversion traces validated by TLC against the VekOwn ledger; the machine's invariants proved for every dimension N with TLAPS (spec/Proof_Iter.tla)",
   text=("TLC builds the complete state graph of the consuming-iterator machine for each dimension 2,3,4,8,16,32,64 and checks the ownership invariants "
         "(live = cursor window, no read of a moved element, length reports, no leak, exactly-once) on it; behaviours covering every transition of every graph are replayed "
         "on the real IntoIter of every vector type with an ownership-tracking element (returned element, len/size_hint, elements read by Debug/PartialEq/Hash, elements destroyed, "
         "exactly-once overall); pairs of cursor states of two iterators (all pairs up to dimension 8, a band around the diagonal above) are compared with ==/!= on the real "
         "iterators: result = equality of the remaining sequences, only live elements read. Conversions (arrays, nested arrays, tuples, slices, FromIterator short/exact/long, matrix row/col arrays in both layouts) are recorded from the code "
-        "and validated by TLC against the ledger specification."),
+        "and validated by TLC against the ledger specification. The inductive invariant of the iterator machine (and the exactly-once / pull-order action properties, len = number of live elements) "
+        "is machine-checked by the TLA+ proof system for EVERY dimension N (spec/Proof_Iter.tla, 123 obligations), so the safety of the machine does not depend on the explored dimensions."),
   design="§6 C18"),
  "C20": dict(
   technique="TLA+ spec of the scalar numeric operations and of the lifting rule (VekLift), tables emitted by TLC replayed into the real code lane by lane (spec->code); cast/approx traces validated by TLC (code->spec); feature configurations enumerated by TLC (MC_Features), built and probed, and the build log validated by TLC",
